@@ -36,7 +36,7 @@ pub struct Case {
     pub max_size: u16,
     pub max_ixs: u8,
     pub allow_payer_change: bool,
-    pub lut_sizes: Vec<u8>,
+    pub luts: Vec<Vec<u8>>,
     pub groups: Vec<Vec<Ag>>,
     pub group_mergeable: Vec<bool>,
 }
@@ -51,6 +51,19 @@ fn payer(i: u8) -> Pubkey {
 }
 fn program(i: u8) -> Pubkey {
     crate::svm::key_of(&format!("c41-program-{}", i % 3))
+}
+/// Address pool of metas and lookup tables: the key universe, then the 3 program ids, then the 3 payers
+/// (real lookup tables routinely list program ids, and programs are passed as plain accounts).
+const POOL_METAS: usize = UNIVERSE + 3;
+const POOL_LUT: usize = UNIVERSE + 6;
+fn pool(i: usize) -> Pubkey {
+    if i < UNIVERSE {
+        key(i)
+    } else if i < UNIVERSE + 3 {
+        program((i - UNIVERSE) as u8)
+    } else {
+        payer((i - UNIVERSE - 3) as u8)
+    }
 }
 
 fn ix_strategy() -> impl Strategy<Value = Ix> {
@@ -68,11 +81,11 @@ fn case() -> impl Strategy<Value = Case> {
         prop_oneof![3 => Just(1232u16), 1 => 400u16..=1232],
         prop_oneof![3 => Just(14u8), 1 => 2u8..=8],
         any::<bool>(),
-        proptest::collection::vec(1u8..=12, 0..=2),
+        proptest::collection::vec(proptest::collection::vec(0u8..POOL_LUT as u8, 1..=14), 0..=2),
         proptest::collection::vec(prop_oneof![4 => proptest::collection::vec(ag_strategy(), 1..=1), 1 => proptest::collection::vec(ag_strategy(), 2..=3)], 1..=8),
         proptest::collection::vec(prop_oneof![5 => Just(true), 1 => Just(false)], 8),
     )
-        .prop_map(|(max_size, max_ixs, allow_payer_change, lut_sizes, groups, group_mergeable)| Case { max_size, max_ixs, allow_payer_change, lut_sizes, groups, group_mergeable })
+        .prop_map(|(max_size, max_ixs, allow_payer_change, luts, groups, group_mergeable)| Case { max_size, max_ixs, allow_payer_change, luts, groups, group_mergeable })
 }
 
 fn build_ix(ix: &Ix, payer_key: &Pubkey, serial: usize) -> Instruction {
@@ -81,7 +94,7 @@ fn build_ix(ix: &Ix, payer_key: &Pubkey, serial: usize) -> Instruction {
         .iter()
         .map(|(k, signer, writable)| {
             // signer metas must be keys a group can sign for: use the payer itself
-            let pk = if *signer { *payer_key } else { key(pick(*k, UNIVERSE)) };
+            let pk = if *signer { *payer_key } else { pool(pick(*k, POOL_METAS)) };
             if *writable { AccountMeta::new(pk, *signer) } else { AccountMeta::new_readonly(pk, *signer) }
         })
         .collect();
@@ -96,10 +109,16 @@ fn build_ix(ix: &Ix, payer_key: &Pubkey, serial: usize) -> Instruction {
 
 fn check(c: &Case, rec: &mut Rec) -> Result<(), String> {
     let mut luts = AddressLookupTables::default();
-    let mut next = 0usize;
-    for (i, n) in c.lut_sizes.iter().enumerate() {
-        let addresses: Vec<Pubkey> = (0..*n as usize).map(|j| key((next + j) % UNIVERSE)).collect();
-        next += *n as usize;
+    let mut lut_lists_program = false;
+    for (i, t) in c.luts.iter().enumerate() {
+        let mut addresses: Vec<Pubkey> = vec![];
+        for j in t {
+            let a = pool(*j as usize % POOL_LUT);
+            if !addresses.contains(&a) {
+                addresses.push(a);
+            }
+            lut_lists_program |= (UNIVERSE..UNIVERSE + 3).contains(&(*j as usize % POOL_LUT));
+        }
         luts.add(&AddressLookupTableAccount { key: crate::svm::key_of(&format!("c41-lut-{i}")), addresses });
     }
     let options = TransactionGroupOptions {
@@ -218,14 +237,16 @@ fn check(c: &Case, rec: &mut Rec) -> Result<(), String> {
         return Err("some original groups disappeared".into());
     }
     rec.class_if(lut_hit, "lut_used");
+    rec.class_if(lut_hit && lut_lists_program, "lut_lists_a_program_id");
     rec.nontrivial_if(groups_after < groups_before && lut_hit);
     Ok(())
 }
 
 pub fn run(ctx: &mut Ctx) {
-    ctx.rule("cases = transaction-size limit (default 1232 or 400..1232), instruction limit (14 or 2..8), allow-payer-change flag, 0..2 lookup tables over a 28-key universe, and 1..8 parallel groups (mostly single atomic groups, some with 2-3) whose atomic groups have one of 3 payers, a mergeable flag, an optional extra signer and 1..4 instructions with 0..20 metas (few keys => dedup), data 0..600 bytes made unique by a serial number; oracle = flattened instruction sequence identical before/after optimize; every original atomic group contiguous inside one resulting group; merged groups all mergeable, same payer unless payer change allowed, payer = first group's payer; instruction count and estimated size within limits; real size (1 + 64*signatures + serialized v0 message compiled with the same lookup tables) <= estimate; non-trivial = at least one merge and one lookup-table hit");
+    ctx.rule("cases = transaction-size limit (default 1232 or 400..1232), instruction limit (14 or 2..8), allow-payer-change flag, 0..2 lookup tables listing 1..14 addresses out of a 28-key universe, the 3 program ids and the 3 payers (program ids also appear as plain account metas), and 1..8 parallel groups (mostly single atomic groups, some with 2-3) whose atomic groups have one of 3 payers, a mergeable flag, an optional extra signer and 1..4 instructions with 0..20 metas (few keys => dedup), data 0..600 bytes made unique by a serial number; oracle = flattened instruction sequence identical before/after optimize; every original atomic group contiguous inside one resulting group; merged groups all mergeable, same payer unless payer change allowed, payer = first group's payer; instruction count and estimated size within limits; real size (1 + 64*signatures + serialized v0 message compiled with the same lookup tables) <= estimate; non-trivial = at least one merge and one lookup-table hit");
     let n = ctx.cases(20_000, 1_000_000);
     ctx.search("packing", n, case, check);
     ctx.floor("packing:merged", 2_000);
     ctx.floor("packing:lut_used", 2_000);
+    ctx.floor("packing:lut_lists_a_program_id", 500);
 }
